@@ -398,3 +398,76 @@ def diag_history_probe(ctx, prop: str, n: int) -> None:
             diag_history_case(rep, prop, r)
         except Exception as ex:  # noqa: BLE001
             rep.count(f"diag-history:rejected:{type(ex).__name__}")
+
+
+# ------------------------------------------------------------------------------------------------
+# diagnostics after `transfer_maps_merged` (C11): the optimisation tracks the beam through the shared diagnostics
+# ------------------------------------------------------------------------------------------------
+def merged_readings_case(rep, prop: str, r: dict) -> None:
+    """`Segment.transfer_maps_merged(beam)` sends `beam` through the lattice (it needs the energy in front of every merged
+    run) and thereby through the *shared* active diagnostics: what they show afterwards must be what a freshly built lattice
+    shows after tracking the same beam — the beam that really arrives there (runs of one, two, three mergeable elements
+    between the diagnostics; also read again after tracking the merged lattice)."""
+    t = lambda v: torch.tensor(v, dtype=F64)  # noqa: E731
+    En, P, bt = r["energy"], np.array(r["particles"], dtype=float), r["beam"]
+
+    def build():
+        els = [cheetah.BPM(is_active=True, name="bpm0")]
+        for i, (run, kind) in enumerate(zip(r["runs"], r["diags"])):
+            for j, (L, k1) in enumerate(run):
+                els.append(cheetah.Quadrupole(length=t(L), k1=t(k1), dtype=F64, name=f"q{i}_{j}") if k1 != 0.0
+                           else cheetah.Drift(length=t(L), dtype=F64, name=f"d{i}_{j}"))
+            if kind == "bpm":
+                els.append(cheetah.BPM(is_active=True, name=f"diag{i}"))
+            else:
+                els.append(cheetah.Screen(resolution=(40, 40), pixel_size=t([2e-4, 2e-4]), is_active=True, method="histogram",
+                                          dtype=F64, name=f"diag{i}"))
+        return cheetah.Segment(els, name="lat")
+
+    def beam():
+        return LT.particle_beam(P, En) if bt == "ParticleBeam" else LT.parameter_beam_from(P, En)
+
+    def readings(seg):
+        out = []
+        for e in seg.elements:
+            if isinstance(e, cheetah.BPM):
+                out.append(None if e.reading is None else e.reading.detach().numpy().reshape(-1).copy())
+            elif isinstance(e, cheetah.Screen):
+                out.append(e.reading.detach().numpy().copy())
+        return out
+    fresh = build()
+    fresh.track(beam())
+    want = readings(fresh)
+    seg = build()
+    merged = seg.transfer_maps_merged(incoming_beam=beam(), except_for=r.get("except_for", []))
+    for stage in ("after transfer_maps_merged", "after tracking the merged lattice"):
+        got = readings(seg)
+        for i, (a, b) in enumerate(zip(got, want)):
+            if a is None or b is None:
+                ok = a is None and b is None
+            else:
+                ok = a.shape == b.shape and bool(np.all(np.abs(a - b) <= 1e-9 * (np.abs(b).max() + 1e-300)))
+            if not ok:
+                rep.fail("falsifier", f"{prop}|transfer_maps_merged|diagnostic reading|{bt}",
+                         f"{stage}: diagnostic #{i} of the lattice (runs of {[len(x) for x in r['runs']]} mergeable elements, {bt}) "
+                         f"shows something else than the same diagnostic of a freshly built lattice tracked with the same beam", r)
+                return
+        merged.track(beam())
+
+
+def merged_readings_probe(ctx, prop: str, n: int) -> None:
+    rep, rng = ctx.report, ctx.rng
+    for i in range(n):
+        nruns = int(rng.integers(2, 4))
+        runs = [[(float(E.pick(rng, 0.3, 1.0, 0.55)), float(E.pick(rng, 0.0, 0.0, 2.0, -3.0))) for _ in range([1, 2, 3, 1][(i + j) % 4])]
+                for j in range(nruns)]
+        r = {"kind": "merged_readings", "runs": runs, "diags": [str(E.pick(rng, "bpm", "bpm", "screen")) for _ in runs],
+             "beam": ["ParticleBeam", "ParameterBeam"][i % 2], "energy": float(E.energy(rng)),
+             "particles": (LT.gen_particles(rng, 12) * np.array([1, 1, 1, 1, 1, 1, 1.0])).tolist()}
+        rep.fals_cases += 1
+        rep.count("probe:merged-readings")
+        rep.case(("merged_readings", tuple(len(x) for x in runs), r["beam"]), None)
+        try:
+            merged_readings_case(rep, prop, r)
+        except Exception as ex:  # noqa: BLE001
+            rep.count(f"merged-readings:rejected:{type(ex).__name__}")
